@@ -344,6 +344,7 @@ func (r *runtime) InstantiateModule(
 		return nil, err
 	}
 
+	wasm.VerifPoint("registered", mod.(*wasm.ModuleInstance))
 	if closeNotifier, ok := ctx.Value(expctxkeys.CloseNotifierKey{}).(experimentalapi.CloseNotifier); ok {
 		mod.(*wasm.ModuleInstance).CloseNotifier = closeNotifier
 	}
